@@ -123,7 +123,7 @@ func (e *Exec) bytesToSlice(bs []*Term) SliceV {
 	arr := &Loc{Comp: true, id: e.newLocID(), Typ: types.NewArray(types.Typ[types.Uint8], int64(len(bs)))}
 	arr.Kids = make([]*Loc, len(bs))
 	for i, b := range bs {
-		arr.Kids[i] = &Loc{V: b, Typ: types.Typ[types.Uint8]}
+		arr.Kids[i] = &Loc{V: b, Typ: types.Typ[types.Uint8], Par: arr, Idx: i}
 	}
 	return SliceV{Arr: arr, Len: len(bs), Cap: len(bs)}
 }
